@@ -250,6 +250,11 @@ func (di *DescriptionBlock) Unpack(data []byte) (n uint, err error) {
 			return 0, err
 		}
 
+		// A DIB contains at least its length and type and must not exceed the remaining data.
+		if length < 2 || uint(length) > uint(len(data))-n {
+			return 0, errors.New("description block length is invalid")
+		}
+
 		switch ty {
 		case DescriptionTypeDeviceInfo:
 			_, err = di.DeviceHardware.Unpack(data[n : n+uint(length)])
